@@ -47,6 +47,7 @@ type srcSpec struct {
 	WithData bool
 	Sched    int
 	ZeroMax  int
+	ZeroRun  int
 	Endless0 bool
 }
 
@@ -61,7 +62,7 @@ func (s srcSpec) err() error {
 }
 
 func (s srcSpec) desc() M {
-	return M{"len": s.Len, "err_at": s.ErrAt, "err": s.err().Error(), "err_with_data": s.WithData, "schedule": doubles.SchedNames[s.Sched], "zero_reads_max": s.ZeroMax, "endless_zero_reads": s.Endless0}
+	return M{"len": s.Len, "err_at": s.ErrAt, "err": s.err().Error(), "err_with_data": s.WithData, "schedule": doubles.SchedNames[s.Sched], "zero_reads_max": s.ZeroMax, "zero_run_after_each_chunk": s.ZeroRun, "endless_zero_reads": s.Endless0}
 }
 
 // readerOpts selects what the runner observes beyond the cursor model.
@@ -200,8 +201,8 @@ func runReaderHistory(cs *drv.Case, ops []rOp, spec srcSpec, o readerOpts) (nont
 		avail = spec.Len
 		srcErr = io.EOF
 	} else {
-		src = &doubles.Source{Len: spec.Len, ErrAt: spec.ErrAt, Err: srcErr, WithData: spec.WithData, Sched: spec.Sched, ZeroMax: spec.ZeroMax,
-			Endless0: spec.Endless0, R: cs.R, Budget: 10*spec.Len + 100000, Trace: cs.Tracef}
+		src = &doubles.Source{Len: spec.Len, ErrAt: spec.ErrAt, Err: srcErr, WithData: spec.WithData, Sched: spec.Sched, ZeroMax: spec.ZeroMax, ZeroRun: spec.ZeroRun,
+			Endless0: spec.Endless0, R: cs.R, Budget: 10*spec.Len + 100000 + spec.ZeroRun*(spec.Len+100), Trace: cs.Tracef}
 		rd = bufiox.NewDefaultReader(src)
 	}
 	if san.PoolShim {
